@@ -33,6 +33,34 @@ def matrices(rnd, tier):
     out.append(np.array([[1 - e, e, 0, 0], [e, 1 - 2 * e, e, 0], [0, e, 1 - 2 * e, e], [0, 0, e, 1 - e]]))
     # two strongly coupled intermediates with nearly equal committors (nearly balanced edge between them)
     out.append(np.array([[0.99, 0.01, 0, 0], [0.001, 0.499, 0.5, 0], [0, 0.5, 0.499, 0.001], [0, 0, 0.01, 0.99]]))
+    # dyadic matrices (entries k/16): exactly representable and exactly row-stochastic in float32 as well
+    for n in (3, 4):
+        for _ in range(2 if tier == 'quick' else 8):
+            W = np.zeros((n, n))
+            for i in range(n):
+                W[i, (i + 1) % n] += 1; W[i, (i - 1) % n] += 1
+                for _k in range(14):
+                    W[i, rnd.randrange(n)] += 1
+            out.append(W / 16.0)
+    # a metastable chain whose entries are exact in single precision too (powers of two): mfpts ~ 2^20 lag times
+    a, b_ = 2.0 ** -20, 2.0 ** -12
+    out.append(np.array([[1 - a, a, 0, 0], [b_, 1 - 2 * b_, b_, 0], [0, b_, 1 - 2 * b_, b_], [0, 0, a, 1 - a]]))
+    # birth-death chains with alternating fast / slow rates (all powers of two: exact in single precision as well)
+    for ks in ([(12, 3), (3, 12), (12, 3), (3, 12), (12, 3)], [(10, 4), (4, 9), (11, 3), (3, 12), (8, 5), (6, 7)]):
+        n_ = len(ks) + 1
+        Tb = np.zeros((n_, n_))
+        for i, k in enumerate(ks):
+            Tb[i, i + 1] += 2.0 ** -k[0]; Tb[i + 1, i] += 2.0 ** -k[1]
+        for i in range(n_):
+            Tb[i, i] = 1 - Tb[i].sum()
+        out.append(Tb)
+    # periodic irreducible chains: eigenvalues of modulus one other than 1 (-1, roots of unity)
+    cyc = np.zeros((5, 5))
+    for i in range(5):
+        cyc[i, (i + 1) % 5] = 1.0
+    out.append(cyc)
+    out.append(np.array([[0, 1, 0, 0], [1 / 3, 0, 2 / 3, 0], [0, 2 / 3, 0, 1 / 3], [0, 0, 1, 0]]))          # Ehrenfest urn, period 2
+    out.append(np.array([[0, 0.5, 0.5, 0, 0, 0], [0, 0, 0, 0.3, 0.7, 0], [0, 0, 0, 0.6, 0.4, 0], [0, 0, 0, 0, 0, 1.0], [0, 0, 0, 0, 0, 1.0], [1.0, 0, 0, 0, 0, 0]]))   # period 3
     return out
 
 
@@ -51,6 +79,7 @@ def cases(L, tier, seed):
     rnd = random.Random(seed)
     for T in matrices(rnd, tier):
         n = len(T)
+        dyadic = bool(np.array_equal(T.astype(np.float32).astype(float), T)) and abs(T.astype(np.float32).sum(axis=1) - 1).max() == 0
         pairs = []
         for a in (1, 2):
             for b in (1, 2):
@@ -62,17 +91,24 @@ def cases(L, tier, seed):
         w, v = np.linalg.eig(T.T)
         pi = np.real(v[:, np.argmax(np.real(w))]); pi = pi / pi.sum()
         for so, si in pairs:
-            for ctor, nm in ((np.array, 'ndarray'), (sp.csr_matrix, 'csr'), (sp.lil_matrix, 'lil')):
+            ctors = [(np.array, 'ndarray'), (sp.csr_matrix, 'csr'), (sp.lil_matrix, 'lil'), (np.asfortranarray, 'fortran-order')]
+            if dyadic:      # single precision input only where it represents the same (exactly stochastic) matrix
+                ctors += [((lambda M: np.asarray(M, dtype=np.float32)), 'float32'), ((lambda M: sp.csr_matrix(M, dtype=np.float32)), 'csr-float32')]
+            for ctor, nm in ctors:
                 if not ONLY or 'C07' in ONLY:
                     yield RT.Committors(), C.committors, dict(tprob=ctor(T), sources=list(so), sinks=list(si)), ('committors', T.round(4).tolist(), so, si, nm)
                 if not ONLY or 'C08' in ONLY:
                     for pops in (None, pi.copy()):
+                        if pops is None and 'float32' in nm:
+                            continue        # stationary vector from a single-precision eigen-solve: 1e-8 accuracy by construction, not the code under test
                         yield RT.ReactiveFluxes(), TP.reactive_fluxes, dict(tprob=ctor(T), sources=list(so), sinks=list(si), populations=pops), ('reactive_fluxes', T.round(4).tolist(), so, si, nm, pops is not None)
                         yield RT.ReactivePopulations(), TP.reactive_populations, dict(tprob=ctor(T), sources=list(so), sinks=list(si), populations=pops), ('reactive_populations', T.round(4).tolist(), so, si, nm, pops is not None)
                         yield RT.NetFluxes(), TP.net_fluxes, dict(tprob=ctor(T), sources=list(so), sinks=list(si), populations=pops), ('net_fluxes', T.round(4).tolist(), so, si, nm, pops is not None)
             if not ONLY or 'C07' in ONLY:
                 for lag in (1.0, 3.5):
                     yield RT.Mfpts(), C.mfpts, dict(tprob=T.copy(), sinks=list(si), lagtime=lag), ('mfpts-sinks', T.round(4).tolist(), si, lag)
+                if dyadic:
+                    yield RT.Mfpts(), C.mfpts, dict(tprob=T.astype(np.float32), sinks=list(si), lagtime=2.0), ('mfpts-sinks-float32', T.round(4).tolist(), si)
         if not ONLY or 'C07' in ONLY:
             yield RT.Mfpts(), C.mfpts, dict(tprob=T.copy(), lagtime=2.0), ('mfpts-table', T.round(4).tolist())
             yield RT.Mfpts(), C.mfpts, dict(tprob=np.asmatrix(T.copy())), ('mfpts-table-npmatrix', T.round(4).tolist())
